@@ -273,7 +273,7 @@ func canonicalize(cfg packages.Config, pkgs []*packages.Package) (map[string][]b
 	}
 	sort.Strings(patterns)
 	if len(patterns) == 0 {
-		if len(overlay) == len(cfg.Overlay) {
+		if len(lg.Renamed) == 0 {
 			return nil, lg
 		}
 		return overlay, lg
@@ -430,7 +430,7 @@ func canonicalize(cfg packages.Config, pkgs []*packages.Package) (map[string][]b
 			break
 		}
 	}
-	if len(overlay) == len(cfg.Overlay) {
+	if len(lg.Renamed) == 0 && len(lg.Inlined) == 0 {
 		return nil, lg
 	}
 	return overlay, lg
